@@ -337,6 +337,13 @@ func (w *World) globalValue(e *Enc, st *State, v *types.Var) *T {
 			}
 		}
 	}
-	fail("global %s.%s not found (package not loaded with syntax)", v.Pkg().Name(), v.Name())
+	// A variable of a dependency (loaded from export data): its address is a constant, its
+	// value is whatever the heap holds; error sentinels are known to be non-nil.
+	if sp := w.prog.Package(v.Pkg()); sp != nil {
+		if g, ok := sp.Members[v.Name()].(*ssa.Global); ok {
+			return loadPtr(e, e.newState(), w.globalAddr(e, g), v.Type())
+		}
+	}
+	fail("global %s.%s not found", v.Pkg().Name(), v.Name())
 	return nil
 }
